@@ -544,3 +544,25 @@ func (r *Run) RunChildChecks(tag string, args ...string) ([]string, error) {
 	}
 	return rest, err
 }
+
+// GCStress runs fn while a background goroutine forces garbage collections every few milliseconds
+// (sync.Pool contents, weak caches and finalizers behave differently under frequent collections).
+func GCStress(fn func()) {
+	stop := make(chan struct{})
+	done := make(chan struct{})
+	go func() {
+		defer close(done)
+		for {
+			select {
+			case <-stop:
+				return
+			default:
+				runtime.GC()
+				time.Sleep(10 * time.Millisecond)
+			}
+		}
+	}()
+	fn()
+	close(stop)
+	<-done
+}
